@@ -735,7 +735,8 @@ class SyncState:  # pylint: disable=too-many-instance-attributes, too-many-publi
                             self._paths[side][path] = {}
                         self._paths[side][path][oid] = ent
                         self._oids[side][oid] = ent
-                        if ent[side].changed:
+                        # same rule as updated(): a change flag only counts on a side that has an oid
+                        if ent[side].changed and oid is not None:
                             self._changeset_storage.add(ent)
                 except Exception as e:
                     log.error("exception during deserialization %s", e)
